@@ -261,6 +261,14 @@ def run_c05(tier: str) -> int:
     rr = random_recipes(ntr, seed, 3 if tier == "quick" else 4)
     ro = observe_parallel(rr)
     trace = [{"v": v, "h": o["h"], "exc": o["exc"]} for (v, o) in zip(rr, ro)]
+    # binding self-test: two altered observations are appended (the signature of another value; a
+    # low-level exception for a supported value); ValuesTrace must flag exactly these
+    (va, vb) = ({"t": "atom", "id": "i2"}, {"t": "atom", "id": "s_b"})
+    (oa, ob) = observe([va, vb])
+    n_real = len(trace)
+    trace.append({"v": va, "h": oa["h"], "exc": oa["exc"]})
+    trace.append({"v": vb, "h": oa["h"], "exc": ""})                   # s_b "hashed" to the signature of 2
+    trace.append({"v": {"t": "list", "items": [va]}, "h": "", "exc": "TypeError"})   # a supported value, low-level exception
     d2 = common.stage_spec({"ValuesConf.tla": valuesconf.module("values", 1)}, "vtrace")
     tf = os.path.join(d2, "obs.json")
     with open(tf, "w") as f:
@@ -270,13 +278,20 @@ def run_c05(tier: str) -> int:
     done = tr.printed("DONE")
     if not done or done[-1]["n"] != len(trace):
         raise MachineryError("ValuesTrace consumed %s of %d observations" % (done[-1]["n"] if done else None, len(trace)))
+    flagged = sorted(pos for (pos, clause, other) in done[-1]["bad"] if pos > n_real)
+    if flagged != [n_real + 2, n_real + 3]:
+        raise MachineryError("binding self-test: ValuesTrace flagged %s of the altered observations %s" % (flagged, [n_real + 2, n_real + 3]))
+    rep.cov["corrupted_observations_rejected"] = 2
     for (pos, clause, other) in done[-1]["bad"]:
+        if pos > n_real:
+            continue
         v = trace[pos - 1]
         if clause == "collision":
             w = trace[other - 1]
             rep.violation("C05|collision|%s" % collision_class(v["v"], w["v"]), {"a": v["v"], "b": w["v"], "signature": v["h"], "from": "recorded trace"})
         else:
             rep.violation("C05|not-total|%s|%s" % (v["exc"], _exc_where(v["v"])), {"value": v["v"], "exception": v["exc"], "from": "recorded trace"})
+    trace = trace[:n_real]
     rep.cov["traces_validated_against_impl"] = len(uni) + len(trace)
     rep.cov["enumerated_values"] = len(uni)
     rep.cov["recorded_observations_judged_by_tlc"] = len(trace)
